@@ -1062,4 +1062,62 @@ theorem admits_fields (O : Oracles) (S : String → String → Bool)
     · exact admits_fields O S hS D fields n hf.2 hrf.2 (by omega) name f hm' v hc hr
 end
 
+/-! ### classes -/
+
+/-- `schema_admits` for a top-level class: the dialect-fixed schema accepts the serialization of
+    every instance in the region, with any fuel that covers the nesting of class references -/
+theorem admits_class (O : Oracles) (S : String → String → Bool)
+    (hS : ∀ p s, O.reMatch p s = true → S p s = true) (D : Defs) (cls : FieldDecl) (x j : PyVal) (n : Nat)
+    (hfrag : inSchemaFragment cls = true) (hrefs : ClassRefsFaithful D cls) (hd : refDepth cls ≤ n)
+    (hreg : inAdmitRegion O cls x = true) (hser : serialize O cls x = .ok j) :
+    jsV (resolver D S n) S (classSchema true cls) j = true := by
+  cases cls with
+  | struct c fields defaults =>
+    simp only [inSchemaFragment, fragF, and_true_iff'] at hfrag
+    obtain ⟨hni, ⟨⟨⟨hncol, hnd⟩, hdef⟩, hfp⟩⟩ := hfrag
+    have hdef' : defaults = [] := by simpa using hdef
+    subst hdef'
+    have hin : c.inline = false := by simpa using hni
+    simp only [ClassRefsFaithful] at hrefs
+    simp only [refDepth, hin, Bool.false_eq_true, if_false] at hd
+    have hshape : structShape c [] (emitP true fields) = classObj c [] (emitP true fields) := by
+      unfold structShape
+      rw [emitP_names]
+      simp only [Bool.not_eq_true'] at hncol
+      simp [hncol]
+    simp only [classSchema, hshape]
+    exact adm_struct_core O _ S c fields x j hnd
+      (fun name f hm y hcy hry =>
+        admits_fields O S hS D fields n hfp hrefs (by omega) name f hm y hcy hry) hreg hser
+  | _ => simp [inSchemaFragment] at hfrag
+
+/-- the region contains only well-formed instances (`Spec/Conforms.wellFormed`) -/
+theorem region_wellFormed (O : Oracles) (cls : FieldDecl) (x : PyVal)
+    (hfrag : inSchemaFragment cls = true) (hreg : inAdmitRegion O cls x = true) :
+    wellFormed O cls x = true := by
+  cases cls with
+  | struct c fields defaults =>
+    cases x with
+    | inst cn attrs =>
+      simp only [inAdmitRegion, regF, and_true_iff'] at hreg
+      simp only [wellFormed, cInline, and_true_iff']
+      exact ⟨hreg.1.1.1.1, hreg.1.1.2⟩
+    | _ => simp [inAdmitRegion, regF] at hreg
+  | _ => simp [inSchemaFragment] at hfrag
+
+/-- the field-wrapper form: the schema of the class is the schema of its only field, and accepts
+    the compact serialization (the serialized field value) -/
+theorem admits_wrapper (O : Oracles) (S : String → String → Bool)
+    (hS : ∀ p s, O.reMatch p s = true → S p s = true) (D : Defs) (c : ClassOpts) (name : String)
+    (f : FieldDecl) (v j : PyVal) (n : Nat)
+    (hcol : collapses c [name] = true) (hfrag : fragF f = true) (hrefs : RefsFaithful D f)
+    (hd : refDepth f ≤ n) (hc : conforms O f v = true) (hreg : regF O f v = true)
+    (hser : ser O f v = .ok j) :
+    jsV (resolver D S n) S (classSchema true (.struct c [(name, f)] [])) j = true := by
+  have : classSchema true (.struct c [(name, f)] []) = emit true f := by
+    simp only [classSchema, structShape, emitP, List.map]
+    simp [hcol]
+  rw [this]
+  exact admits_field O S hS D f n v hfrag hrefs hd hc hreg j hser
+
 end Typedpy.Sch
